@@ -1,0 +1,26 @@
+// Copyright 2026 The OWASP Coraza contributors
+// SPDX-License-Identifier: Apache-2.0
+
+//go:build verif && !tinygo && !coraza.no_memoize
+
+package memoize
+
+import (
+	"fmt"
+	"sort"
+)
+
+// VerifKeys lists the live cache entries as "key\x00dynamic type\x00owner count" (sorted),
+// for the verification harness.
+func VerifKeys() []string {
+	var out []string
+	cache.Range(func(key, value any) bool {
+		e := value.(*entry)
+		e.mu.Lock()
+		out = append(out, fmt.Sprintf("%s\x00%T\x00%d", key.(string), e.value, len(e.owners)))
+		e.mu.Unlock()
+		return true
+	})
+	sort.Strings(out)
+	return out
+}
